@@ -5,6 +5,8 @@ int g_hash_clean;
 uint16_t g_entry_hist;
 uint32_t w_pass_calls;
 int g_reject;
+int g_must_pass;
+int w_pass_called;
 #include "splice_defaults.h"
 #include <string.h>
 /* The history-buffer copies of isal_deflate() (memcpy/memmove on the 64 KiB internal buffer with symbolic
